@@ -1221,10 +1221,14 @@ class TmpStore:
         return blob_dir
 
     def _getCleanFilename(self, oid, tid):
+        # The name includes the position of the object's record in this
+        # store: each savepoint keeps its own copy of the blob data, and
+        # after a rollback the restored index leads to the right copy
+        # (or to none, if the blob was not saved before that savepoint).
         return os.path.join(
             self._getBlobPath(),
-            "{}-{}{}".format(utils.oid_repr(oid), utils.tid_repr(tid),
-                             SAVEPOINT_SUFFIX)
+            "{}-{}-{}{}".format(utils.oid_repr(oid), utils.tid_repr(tid),
+                                self.index.get(oid), SAVEPOINT_SUFFIX)
         )
 
     def temporaryDirectory(self):
